@@ -32,6 +32,7 @@ def parseNode? (t : String) : Option Node :=
     | "in" => (tgt.toNat?).map fun n => Node.input n
     | "mod" => some (Node.leaf ⟨.module, tgt⟩ args)
     | "fn" => some (Node.leaf ⟨.function, tgt⟩ args)
+    | "fni" => some (Node.leaf ⟨.impureFunction, tgt⟩ args)
     | "meth" => some (Node.leaf ⟨.method, tgt⟩ args)
     | "comb" => some (Node.combine tgt args)
     | "out" => some ⟨.output, args⟩
